@@ -50,25 +50,35 @@ Lemma layout_wf_examples :
   map (parsed_ok layout_wf) [w_local; w_global; w_assigned; w_shadow; w_rich; w_before] = [true; true; true; true; true; true].
 Proof. vm_compute. reflexivity. Qed.
 
-(* the real server answers the same (leg c19.docsym): `t` 3:0-3:1 with child `t.x` 1:4-1:5 *)
+(* before fixes/C19-children-inside.diff the real server answered the same (leg c19.docsym): `t` 3:0-3:1 with child
+   `t.x` 1:4-1:5 *)
 Lemma child_before_parent_witness :
-  exists ss s c, outline_of_bytes true w_before = Some ss /\ nth_error ss 1 = Some s /\
+  exists ss s c, outline_of_bytes fx_round1 w_before = Some ss /\ nth_error ss 1 = Some s /\
                  nth_error (s_children s) 0 = Some c /\
                  s_key s = [116%N] /\ s_loc s = mkLoc 4 0 4 1 /\ c_loc c = mkLoc 2 4 2 5 /\
                  contains (s_loc s) (c_loc c) = false.
 Proof. do 3 eexists. vm_compute. repeat split. Qed.
 
-Lemma contains_decl_full_refuted :
-  ~ (forall bs ss s, outline_of_bytes true bs = Some ss -> In s ss ->
+(* repaired: the entry of `t` is the Union of its identifier and the child *)
+Lemma child_before_parent_repaired :
+  exists ss s c, outline_of_bytes deployed w_before = Some ss /\ nth_error ss 1 = Some s /\
+                 nth_error (s_children s) 0 = Some c /\
+                 s_key s = [116%N] /\ s_decl s = mkLoc 4 0 4 1 /\ s_loc s = mkLoc 2 4 4 1 /\ c_loc c = mkLoc 2 4 2 5 /\
+                 contains (s_loc s) (c_loc c) = true /\ contains (s_loc s) (s_decl s) = true.
+Proof. do 3 eexists. vm_compute. repeat split. Qed.
+
+(* the two full statements fail for the code before this round's repairs (fx_round1) *)
+Lemma contains_decl_prefix_refuted :
+  ~ (forall bs ss s, outline_of_bytes fx_round1 bs = Some ss -> In s ss ->
                      contains (s_loc s) (s_decl s) = true /\
                      forall c, In c (s_children s) -> contains (c_loc c) (c_decl c) = true).
 Proof.
-  intros H. destruct (assigned_function_witness true) as [s [Ho [_ [_ [_ [_ [_ Hc]]]]]]].
+  intros H. destruct assigned_function_witness as [s [Ho [_ [_ [_ [_ [_ Hc]]]]]]].
   destruct (H w_assigned [s] s Ho (or_introl eq_refl)) as [H1 _]. rewrite Hc in H1. discriminate.
 Qed.
 
-Lemma children_inside_full_refuted :
-  ~ (forall bs ss s c, outline_of_bytes true bs = Some ss -> In s ss -> In c (s_children s) ->
+Lemma children_inside_prefix_refuted :
+  ~ (forall bs ss s c, outline_of_bytes fx_round1 bs = Some ss -> In s ss -> In c (s_children s) ->
                        contains (s_loc s) (c_loc c) = true).
 Proof.
   intros H. destruct child_before_parent_witness as [ss [s [c [Ho [Hs [Hc [_ [_ [_ Hn]]]]]]]]].
@@ -84,10 +94,10 @@ Definition n_p : bytes := [112]%N.              (* p: a parameter that is also a
 Definition n_helper : bytes := [104;101;108;112;101;114]%N.
 Definition n_M : bytes := [77]%N.
 
-Definition top_local_last_of (bs : list N) (nm : bytes) : option vsig :=
+Definition top_local_decls_of (bs : list N) (nm : bytes) : list vsig :=
   match parse_bytes no_gbk classify_tok bs with
-  | Ok (PR b [] []) => top_local_last b nm
-  | _ => None
+  | Ok (PR b [] []) => top_local_decls b nm
+  | _ => []
   end.
 
 (* an instance of the predicate of the third clause: "the name is one of q, cfg, h, t, p and only h is function-valued" *)
@@ -99,25 +109,35 @@ Lemma complete_guard_examples :
   map (fun nm => parsed_ok (chk_block (not_named nm) any_target) w_rich && parsed_ok (asg_block nm) w_rich)
       [n_q; n_cfg; n_h; n_t; n_p] = [true; true; true; true; false] /\
   parsed_ok (chk_block any_name rich_targets) w_rich = true /\
-  top_local_last_of w_rich n_helper = Some (mkLoc 5 15 5 21, false, Some (mkLoc 5 0 11 3)) /\
-  top_local_last_of w_rich n_M = Some (mkLoc 1 6 1 7, false, None) /\
-  top_local_last_of w_shadow [120%N] = Some (mkLoc 2 6 2 7, false, None).
+  top_local_decls_of w_rich n_helper = [(mkLoc 5 15 5 21, false, Some (mkLoc 5 0 11 3))] /\
+  top_local_decls_of w_rich n_M = [(mkLoc 1 6 1 7, false, None)] /\
+  top_local_decls_of w_shadow [120%N] = [(mkLoc 1 6 1 7, false, None); (mkLoc 2 6 2 7, false, None)].
 Proof. vm_compute. repeat split. Qed.
 
 (* the full property (every reference declaration covered by an entry with a good range) on the witness files *)
-Definition full_cover (bs : list N) : option bool :=
+Definition full_cover (fx : fixes) (bs : list N) : option bool :=
   match parse_bytes no_gbk classify_tok bs with
   | Ok (PR b [] []) =>
     match analyse (fuel_of_bytes bs) b with
-    | Ok st => Some (covers (line_lens bs) (entries_of (find_all_symbol true (finalize st))) (decls_spec (fuel_of_bytes bs) b))
+    | Ok st => Some (covers (line_lens bs) (entries_of (find_all_symbol fx (finalize st))) (decls_spec (fuel_of_bytes bs) b))
     | _ => None
     end
   | _ => None
   end.
 
+(* local function h() end <LF> function h.get() end : a member of a function-valued local (open class member_lost) *)
+Definition w_member_lost : list N := [108;111;99;97;108;32;102;117;110;99;116;105;111;110;32;104;40;41;32;101;110;100;10;102;117;110;99;116;105;111;110;32;104;46;103;101;116;40;41;32;101;110;100;10]%N.
+(* function M.f() end : a member of a name the file never defines (class member_of_undeclared, repaired) *)
+Definition w_undeclared : list N := [102;117;110;99;116;105;111;110;32;77;46;102;40;41;32;101;110;100;10]%N.
+
+(* before this round's repairs only w_global and w_before were covered; now every witness file except the one of the
+   open class member_lost is *)
 Lemma full_cover_witnesses :
-  map full_cover [w_global; w_rich; w_local; w_assigned; w_shadow] = [Some true; Some false; Some false; Some false; Some false].
-Proof. vm_compute. reflexivity. Qed.
+  map (full_cover fx_round1) [w_global; w_rich; w_local; w_assigned; w_shadow; w_before; w_undeclared; w_member_lost] =
+    [Some true; Some false; Some false; Some false; Some false; Some true; Some false; Some false] /\
+  map (full_cover deployed) [w_global; w_rich; w_local; w_assigned; w_shadow; w_before; w_undeclared; w_member_lost] =
+    [Some true; Some true; Some true; Some true; Some true; Some true; Some true; Some false].
+Proof. vm_compute. split; reflexivity. Qed.
 
 (* ------------------------------------------------------------------ the lexical guard *)
 (* local function f() local x = 1; x = 2 end <LF> function g() x = 3 end : x is a local of f and a global assigned in g *)
@@ -130,14 +150,6 @@ Lemma lexical_guard_examples :
   parsed_ok (chk_block (not_named n_x) any_target) w_lex = false /\
   parsed_ok shp_block w_rich = true /\
   map (fun nm => parsed_ok (asgU_block nm) w_rich) [n_q; n_cfg; n_h; n_t; n_p; n_M] = [true; true; true; true; false; false] /\
-  (exists ss, outline_of_bytes true w_lex = Some ss /\ map s_key ss = [[102%N]; n_x; [103%N]]).
+  (exists ss, outline_of_bytes fx_all w_lex = Some ss /\ map s_key ss = [[102%N]; n_x; [103%N]]).
 Proof. vm_compute. repeat split. eexists. split; reflexivity. Qed.
 
-(* function f() end <LF> local function g() end <LF> t = {} : only function STATEMENTS *)
-Definition w_fstat : list N :=
-  [102;117;110;99;116;105;111;110;32;102;40;41;32;101;110;100;10;108;111;99;97;108;32;102;117;110;99;116;105;111;110;32;103;40;41;32;101;110;100;10;116;32;61;32;123;125;10]%N.
-Lemma fn_statement_guard_examples :
-  parsed_ok (chk_block any_name fn_target_contains) w_fstat = true /\
-  parsed_ok (chk_block any_name fn_target_contains) w_assigned = false /\
-  top_local_last_of w_fstat [103%N] = Some (mkLoc 2 15 2 16, false, Some (mkLoc 2 0 2 22)).
-Proof. vm_compute. repeat split. Qed.
